@@ -4,29 +4,7 @@ import json, os, subprocess
 HERE = os.path.dirname(os.path.dirname(os.path.abspath(__file__)))
 ALL = ["C%02d" % i for i in range(1, 21)]
 MC = "model_checking"
-CHECKS = {
- "C01": dict(text="TLC checks the byte-level RFC 8259 automaton (JsonText) against the declarative ABNF formulation on all strings up to a length bound and proves every live state viable; TLC then emits a witness for every (machine state, byte class) transition, the harness expands each to all 256 bytes (+completions, +confusion continuations, +BOM) and runs the five real front-ends; the recorded accept/reject outcomes are validated by TLC stepping the JsonText actions over every input (trace validation), including random and harvested documents far outside the model bounds.",
-             note="Trusted: JsonText.tla as the reading of RFC 8259 (cross-checked against the grammar by TLC within bounds), the Go harness that records outcomes, TLC itself. Inputs beyond the transition cover are sampled, not exhaustive.",
-             tech="TLA+ spec (JsonText) + TLC design check + TLC-generated transition cover replayed into the real parsers + TLC trace validation", ref="6/C01"),
- "C09": dict(text="Same specification and transition cover as C01; the trace specification tracks line/column incrementally in its Feed action and compares the position reported by 5 whole-buffer front-ends and 11 reader variants (whole, 1-byte, 3-byte reads, errors behind the 4096/8192-byte refills) with the position of the specification's Err step (or end of input).",
-             note="Trusted: JsonText's Err step is the first offending byte (ViablePrefix + GrammarEquiv checked by TLC within bounds). Chunkings are the three listed plus refill-boundary cases, not all.",
-             tech="TLA+ spec (JsonText) + TLC trace validation of recorded error positions", ref="6/C09"),
- "C02": dict(text="JsonValue.tla gives the denotation of every RFC 8259 text (recursive-descent reading of the grammar JsonText recognises, exact decimals as digit sequences, escapes and surrogate pairs decoded to bytes, member lists with last-duplicate-wins) and the relation Allowed between a literal and what a parser may return (int64 equal; float64 whose two neighbouring midpoints enclose the literal; json.Number/gen.Big whose text denotes the same decimal; plain integers that fit int64 must be int). TLC checks the denotation total on every accepted text of the bounded exploration plus unit laws of the decimal arithmetic, enumerates number-literal shapes and string bodies from set expressions, and judges every value returned by 7 front-end variants (whole-buffer fast paths, 1-byte slow paths, tokenizer callbacks rebuilt with alt.Builder) in a trace specification.",
-             note="Trusted: the harness computes the two midpoints around each RETURNED float64 with math/big (a fact about the format); JsonValue.tla as the reading of RFC 8259 section 6/7. Literal shapes are enumerated up to 22 (quick) / 40 (thorough) digits; other documents are sampled.",
-             tech="TLA+ denotational spec (JsonValue) + TLC-enumerated literal shapes replayed into the parsers + TLC trace validation of returned values", ref="6/C02"),
- "C03": dict(text="Chunking.tla models a reader that moves n bytes at a time into a window consumed by the JsonText automaton; TLC checks that Refill is a stuttering step (the outcome is a function of the byte sequence) and enumerates every composition of lengths 1..8, which the harness replays as Read sizes. For every input (JsonText transition cover, TLC-enumerated literals, random JSON/SEN/multi-document texts with mutations, documents aligned on the 4096/8192-byte refill) all front-ends and chunkings are run and the trace specification decides agreement: within the JSON family (oj.Parse, oj.ParseReader, tokenizer+Builder, gen.Parser+Simplify), within the SEN family, between the two on input JsonText accepts, and for the delivered document sequences in callback/func/channel mode; numbers are compared as exact decimals (with the rounding freedom C02 grants).",
-             note="Trusted: the harness projection (absval) and grouping of identical observations; equality itself is decided by TLC. Known systemic SEN defects (tokenizer grammar gap, bare tokens at refill boundaries) are listed as known findings with family-wide patterns, so chunked SEN reads and the SEN tokenizer are not protected; JSON-family agreement, SEN whole-buffer agreement and SEN-vs-JSON on valid JSON are strict.",
-             tech="TLA+ spec (Chunking over JsonText) + TLC-enumerated chunkings replayed into the readers + TLC trace validation of agreement", ref="6/C03"),
- "C12": dict(text="TLC checks the operator tables of Script.tla (every operator x 24 x 24 operand values) against ten laws implied by the statement; TLC then enumerates the cell matrix operator x left operand (form, kind, value) x right operand and the harness runs each script, built through the jp constructors and parsed from text, through 11 routes (Script.Match, Get/First/Has/GetNodes with [?...] on []any, map and gen data, Filter.Eval) plus seeded && || ! nesting re-parsed from String(); TLC evaluates Script!Expect on every logged (AST, element, root) and judges each recorded outcome, panics included.",
-             note="Trusted: Script.tla as the reading of the operator documentation (cells the documentation leaves open are ANY: only no-panic and the ==/!= complement are required there), Go regexp facts for 8 patterns x 10 strings, floats restricted to small dyadic rationals. Value universe is small (2-4 values per kind); nesting deeper than 2 is sampled.",
-             tech="TLA+ spec (Script) + TLC design check + TLC-generated cell matrix replayed into jp + TLC trace validation", ref="6/C12"),
- "C14": dict(text="TLC checks on the PathText model that Parse(Print(a)) evaluates like a for every equation tree to depth 2 under the safe parenthesisation rule and finds the counterexamples for the two rules the code uses; expressions and equations built through the public constructors (every fragment kind x key byte class x position, every (parent, child, side) operator triple, constants of every kind) are printed, parsed, printed again and evaluated; TLC (TraceC14) requires no parse error, identical print, identical evaluation and, for equations, agreement with Script!Expect.",
-             note="Trusted: Script.tla for equation values; path evaluation is only compared original vs re-parsed. Expression length <= 4, one document family. Known-finding patterns grouped by 10 root causes (triage per root cause); the descent-related patterns are broad.",
-             tech="TLA+ spec (PathText + Script) + TLC design check with expected counterexamples + TLC trace validation of recorded round trips", ref="6/C14"),
- "C17": dict(text="StreamMatch.tla states the property over JsonPath!Locs (the targets' locations, outermost only, in document order, with their values) and gives the event-machine formulation of a streaming matcher (current location, stack of partially built containers, calls made), one action per token event; TLC checks the two equal on small documents for every target a stream can decide. The real oj.Match/MatchString/MatchLoad and sen.Match/MatchLoad (whole, 1-byte, 3-byte, half reads) are run on seeded random documents x target sets (child, index, wildcard, union, slice, descent, trailing filter, one or two targets) and every recorded callback sequence (normalised path, value) is compared by TLC with Expected.",
-             note="Trusted: JsonPath!Locs as the meaning of the targets (the C05 oracle); the harness writes members in key order so that document order is defined. Targets containing a slice, a negative index or a filter deviate by design/documentation and are known findings with patterns on exactly those fragment kinds; all other target shapes are strict.",
-             tech="TLA+ spec (StreamMatch over JsonPath) + TLC design check (event machine = denotation) + TLC trace validation of recorded callbacks", ref="6/C17"),
-}
+CHECKS = json.load(open(os.path.join(HERE, "tools", "checks.json")))
 NA_REASON = "check not built yet in this round; planned with the TLA+ specification named in DESIGN.md section 6 (no different technique is substituted)"
 
 def main():
